@@ -212,6 +212,9 @@ def run_check(pid, tier, check):
     fns_repo, fns_dep = set(), set()
     for ji, job in enumerate(check["jobs"]):
         cases = [c for c in job["cases"] if tier in c.get("tiers", ["quick", "thorough"])]
+        only = os.environ.get("VERIF_ONLY")  # development aid: substring filter on case names (not used by registered commands)
+        if only:
+            cases = [c for c in cases if only in c["name"]]
         if not cases:
             continue
         ecases = []
